@@ -10,7 +10,7 @@ from checks.common import swarm
 ID = 'C13'
 LEVEL = 'exploration'
 NEEDS = ('threads', 'proc')
-QUICK = dict(runs=2000, wall=85)
+QUICK = dict(runs=3500, wall=85)
 THOROUGH = dict(runs=80000, wall=1800)
 RULE = ('history machine over named handles: create(list|dict|Value|Namespace|Maker|MemoryBlock), copy via pickle, pickle only (in transit), '
         'unpickle later (once), send between the driver and 1-2 client processes over a connection, pass as Process argument to a '
